@@ -394,9 +394,18 @@ YR_API int yr_rules_load_stream(YR_STREAM* stream, YR_RULES** rules)
   // Load the arena's data the stream. We are the owners of the arena.
   FAIL_ON_ERROR(yr_arena_load_stream(stream, &arena));
 
+  // A file that doesn't have exactly the buffers that the compiler produces
+  // was not written by yr_rules_save, or its header is damaged.
+  if (arena->num_buffers != YR_NUM_SECTIONS)
+  {
+    yr_arena_release(arena);
+    return ERROR_CORRUPT_FILE;
+  }
+
   // Create the YR_RULES object from the arena, this makes YR_RULES owner
   // of the arena too.
-  FAIL_ON_ERROR(yr_rules_from_arena(arena, rules));
+  FAIL_ON_ERROR_WITH_CLEANUP(
+      yr_rules_from_arena(arena, rules), yr_arena_release(arena));
 
   // Release our ownership so that YR_RULES is the single owner. This way the
   // arena is destroyed when YR_RULES is destroyed.
